@@ -4,7 +4,6 @@ import (
 	"fmt"
 	"os"
 	"path/filepath"
-	"reflect"
 	"strings"
 
 	"github.com/zeromicro/go-zero/core/conf"
@@ -176,7 +175,7 @@ func checkEnv(ec *EnvCase) result {
 	// difference can only come from the strings.
 	if !hasRaw(want) {
 		std := load(stdJSON, renderJSON(want), t)
-		if std.Verdict == "ok" && got.Verdict == "ok" && !reflect.DeepEqual(std.Val, got.Val) {
+		if std.Verdict == "ok" && got.Verdict == "ok" && !valuesEqual(std.Val, got.Val) {
 			res.Sig = mode + "," + ec.Ext + ",load=" + rel(got, std) + ",expected-literal=ok"
 			res.Detail = fmt.Sprintf("conf.Load(%s,%s): %s | expected (encoding/json on the document): %s", ec.Ext, mode, show(got), show(std))
 		}
